@@ -455,7 +455,7 @@ impl Wal {
             let mut segment = WalSegment::open(&segment_path, i)?;
             while let Ok((header, page_data)) = segment.read_frame() {
                 if header.page_no >= storage.page_count() {
-                    let required_pages = header.db_size.max(header.page_no + 1);
+                    let required_pages = header.db_size.max(header.page_no.saturating_add(1));
                     storage.grow(required_pages).wrap_err_with(|| {
                         format!(
                             "failed to grow storage to {} pages during WAL recovery of segment {}",
@@ -497,7 +497,7 @@ impl Wal {
                 }
 
                 if header.page_no >= storage.page_count() {
-                    let required_pages = header.db_size.max(header.page_no + 1);
+                    let required_pages = header.db_size.max(header.page_no.saturating_add(1));
                     storage.grow(required_pages).wrap_err_with(|| {
                         format!(
                             "failed to grow storage to {} pages during WAL recovery for file_id={} segment={}",
@@ -575,7 +575,7 @@ impl Wal {
                 }
 
                 if header.page_no >= storage.page_count() {
-                    let required_pages = header.db_size.max(header.page_no + 1);
+                    let required_pages = header.db_size.max(header.page_no.saturating_add(1));
                     storage.grow(required_pages).wrap_err_with(|| {
                         format!(
                             "failed to grow storage to {} pages during WAL replay for file_id={} segment={}",
